@@ -81,7 +81,7 @@ theorem termInv_step (P : Program) (F : Flags) (rank : Nat → Nat) (hr : RankOk
     simp only [List.map_cons, List.map_nil, List.sum_cons, List.sum_nil, Nat.add_zero, List.length_append,
       List.length_cons, List.length_nil, Nat.zero_add]
     rw [hnewpot]
-    rcases hcase with ⟨k', hk, hfree, htops, hoth⟩ | ⟨p, px, s, hpx, hfree, hslot, htops, hpa, hp', hoth⟩
+    rcases hcase with ⟨k', hk, hfree, htops, hoth⟩ | ⟨p, px, s, hpx, hfree, hslot, htops, hpa, hp', hoth, _⟩
     · -- a call of `Run`
       have hsum : ((actIds tr).map (potAct P rank c')).sum = ((actIds tr).map (potAct P rank c)).sum := by
         apply sum_congr
